@@ -9,6 +9,7 @@ package main
 // "wire" cases: a real in-process casket site (`proxy / http://127.0.0.1:port`) in front of a real
 // loopback backend, raw HTTP/1.1 on the client socket (Content-Length or chunked request bodies
 // around the 32 KiB copy buffer, chunked/flushed responses, trailers).
+// "relay" cases: see c04_relay.go; "conc" cases: see c04_conc.go.
 // "key", "sjs", "replace", "match": the helper functions the model builds on.
 
 import (
@@ -44,7 +45,7 @@ type c04Dir struct {
 }
 
 type c04In struct {
-	Kind string `json:"kind"` // key sjs replace match proxy wire
+	Kind string `json:"kind"` // key sjs replace match proxy wire relay conc
 	S    string `json:"s,omitempty"`
 	A    string `json:"a,omitempty"`
 	B    string `json:"b,omitempty"`
@@ -1263,7 +1264,7 @@ func init() {
 	c04BuildVoc()
 	register(&Property{
 		ID: "C04", Imports: "V.Lib V.Gen_C04 V.C04_Model", Judge: "judge",
-		Rule: "cases = real proxy directive parser + Proxy.ServeHTTP with a scripted recording transport (every attempt of the retry loop) and a recorder client; real casket site + loopback backend with raw HTTP/1.1 for body framing/trailers; helper functions (CanonicalMIMEHeaderKey, singleJoiningSlash, Replacer, Proxy.match). non-trivial = proxied request carrying header lines and (directives or hop-by-hop headers), wire case with a body, helper case whose output differs from its input; distinct = distinct Coq case term",
+		Rule: "cases = real proxy directive parser + Proxy.ServeHTTP with a scripted recording transport (every attempt of the retry loop) and a recorder client; relay: scripted backend body reader segmentations through the real copyResponse/pooledIoCopy into a recording ResponseWriter (every WriteHeader/Write/Flush call, trailers keys); conc: N parallel requests with unique body patterns through one proxy with 2-3 hosts and try_duration > 0 in a child process (GOMAXPROCS/GC pinned), first attempts failing after the body was read while other responses are relayed through the pooled buffers (barrier transport or real http.Transport + loopback backends that accept, read, drop); real casket site + loopback backend with raw HTTP/1.1 for body framing/trailers; helper functions (CanonicalMIMEHeaderKey, singleJoiningSlash, Replacer, Proxy.match). non-trivial = proxied request carrying header lines and (directives or hop-by-hop headers), wire/relay case with a body, conc case with a non-empty retried body and at least one relayed response, helper case whose output differs from its input; distinct = distinct Coq case term",
 		Gen: c04Gen,
 		Decode: func(raw json.RawMessage) (interface{}, error) {
 			in := &c04In{}
